@@ -57,6 +57,7 @@ theorem rename_key_coherent (old new : Path) (t : M) (hc : Coherent t) :
 /-- the value of a `set` is itself a coherent tensor / tensordict (what the constructors deliver) -/
 def ValOk : Op → Prop
   | .set _ _ v => Coherent v
+  | .setdefault _ _ v => Coherent v
   | _ => True
 
 /-- scope of the property: a `batch_size` assigned through a nested handle still extends the batch size of the
@@ -70,7 +71,7 @@ def InScope (t : M) : Op → Prop
 every outcome. It is FALSE of the code for `batch_size` assignments that fail with a dim-name conflict
 (`setbatch_names_conflict_counterexample`, known finding C01-batch-size-names-conflict) — hence hypothesis `hn`
 and the name `_partial`. Proved: every modelled operation (set, batch_size, names, del_, rename_key_,
-create_nested, clear) and every other outcome, accepted or raising, on the root or through any nested handle. -/
+create_nested, clear, pop, popitem, setdefault, refine_names) and every other outcome, accepted or raising, on the root or through any nested handle. -/
 theorem step_coherent_partial (t : M) (hc : Coherent t) (op : Op) (hv : ValOk op) (hs : InScope t op)
     (hn : ∀ h bs, op = .setBatch h bs → (step t op).2 ≠ .err .value) : Coherent (step t op).1 := by
   cases op with
@@ -90,6 +91,10 @@ theorem step_coherent_partial (t : M) (hc : Coherent t) (op : Op) (hv : ValOk op
   | rename h o n => exact (atPath_keeps _ (fun n' hn' => renamePath_spec o n n' hn') h t hc).2.2
   | createNested h key => exact (atPath_keeps _ (fun n hn => createNested_spec key n hn) h t hc).2.2
   | clear h => exact (atPath_keeps _ (fun n hn => clearM_spec n hn) h t hc).2.2
+  | pop h key => exact (atPath_keeps _ (fun n hn => popPath_spec key n hn) h t hc).2.2
+  | popitem h => exact (atPath_keeps _ (fun n hn => popItem_spec n hn) h t hc).2.2
+  | setdefault h key v => exact (atPath_keeps _ (fun n hn => setDefaultPath_spec key v n hn hv) h t hc).2.2
+  | refineNames h ns => exact (atPath_keeps _ (fun n hn => refineNamesM_spec ns n hn) h t hc).2.2
 
 /-- histories: the side conditions along a run -/
 def Safe (t : M) : List Op → Prop
